@@ -60,6 +60,7 @@ var (
 	noFields = flag.Bool("nofields", false, "do not insert field access monitors")
 	extra    = flag.String("extra", "", "extra package to instrument with all rewrites: <abs dir>=<import path>")
 	dump     = flag.Bool("dump", false, "print instrumented sources to stdout")
+	noReset  = flag.Bool("noreset", false, "do not generate the per-execution reset of package-level state")
 )
 
 func fatal(f string, a ...any) {
@@ -231,6 +232,7 @@ type rewriter struct {
 	wExpr        map[ast.Expr]wInfo              // generated (*vsched.W(&x, name)) expressions
 	rhsType      map[ast.Stmt]types.TypeAndValue // type of the single right-hand side of an assignment, before rewriting
 	lhsPure      map[ast.Stmt]bool               // the assignment's left-hand side can be evaluated twice / later without effect
+	inGenerated  bool                            // inside the generated reset code: no access monitors
 	pendingLabel *ast.Ident
 }
 
@@ -262,6 +264,29 @@ func instrumentPkg(conf pkgConf, consts map[string]string, targets map[string]bo
 		files = append(files, f)
 		names = append(names, n)
 	}
+	ipath := "github.com/whoisnian/glb/" + conf.dir
+	if conf.path != "" {
+		ipath = conf.path
+	}
+	if conf.files == nil && !*noReset {
+		// package-level state must start afresh in every execution: add a function that re-runs
+		// the package's variable initialisation and init functions (see resetGlobals)
+		aug, err := resetGlobals(dir, ipath, fset, files, names)
+		if err != nil {
+			return fmt.Errorf("reset of package-level state: %v", err)
+		}
+		if aug != nil {
+			fset = token.NewFileSet()
+			files = files[:0]
+			for i, n := range names {
+				f, err := parser.ParseFile(fset, filepath.Join(dir, n), aug[i], parser.ParseComments)
+				if err != nil {
+					return fmt.Errorf("generated reset code in %s: %v", n, err)
+				}
+				files = append(files, f)
+			}
+		}
+	}
 	info := &types.Info{
 		Types:      map[ast.Expr]types.TypeAndValue{},
 		Uses:       map[*ast.Ident]types.Object{},
@@ -269,10 +294,6 @@ func instrumentPkg(conf pkgConf, consts map[string]string, targets map[string]bo
 		Selections: map[*ast.SelectorExpr]*types.Selection{},
 	}
 	tc := types.Config{Importer: importer.ForCompiler(fset, "source", nil), Error: func(error) {}}
-	ipath := "github.com/whoisnian/glb/" + conf.dir
-	if conf.path != "" {
-		ipath = conf.path
-	}
 	pkg, err := tc.Check(ipath, fset, files, info)
 	if err != nil {
 		return fmt.Errorf("type check: %v", err)
@@ -305,6 +326,118 @@ func instrumentPkg(conf pkgConf, consts map[string]string, targets map[string]bo
 		overlay[filepath.Join(dir, names[i])] = dst
 	}
 	return nil
+}
+
+// resetGlobals returns the package's sources with a function verifResetGlobals added that puts
+// every package-level variable back to its initial state: zero value, then the initialisers
+// in the order the language prescribes (types.Info.InitOrder), then the init functions in
+// file order. The scheduler calls it before every execution, so that state kept in
+// package-level variables (caches, free lists, counters, "last value" memos) cannot leak from
+// one explored execution into the next - which would make executions irreproducible.
+// The additions are plain source text, type-checked and instrumented with the rest.
+func resetGlobals(dir, ipath string, fset *token.FileSet, files []*ast.File, names []string) ([][]byte, error) {
+	info := &types.Info{Defs: map[*ast.Ident]types.Object{}}
+	tc := types.Config{Importer: importer.ForCompiler(fset, "source", nil), Error: func(error) {}}
+	if _, err := tc.Check(ipath, fset, files, info); err != nil {
+		return nil, nil // the ordinary type check below reports it
+	}
+	src := make([][]byte, len(files))
+	add := make([]strings.Builder, len(files))
+	fileOf := func(pos token.Pos) int {
+		for i, f := range files {
+			if f.FileStart <= pos && pos <= f.FileEnd {
+				return i
+			}
+		}
+		return -1
+	}
+	for i, n := range names {
+		b, err := os.ReadFile(filepath.Join(dir, n))
+		if err != nil {
+			return nil, err
+		}
+		src[i] = b
+	}
+	text := func(n ast.Node) string {
+		i := fileOf(n.Pos())
+		return string(src[i][fset.Position(n.Pos()).Offset:fset.Position(n.End()).Offset])
+	}
+	var calls []string
+	// every variable to its zero value first
+	var zero []string
+	for _, f := range files {
+		for _, d := range f.Decls {
+			gd, ok := d.(*ast.GenDecl)
+			if !ok || gd.Tok != token.VAR {
+				continue
+			}
+			for _, sp := range gd.Specs {
+				for _, nm := range sp.(*ast.ValueSpec).Names {
+					if nm.Name != "_" {
+						zero = append(zero, nm.Name)
+					}
+				}
+			}
+		}
+	}
+	// initialisers, each in the file that declares it (its imports are the right ones)
+	for k, in := range info.InitOrder {
+		i := fileOf(in.Rhs.Pos())
+		if i < 0 {
+			continue
+		}
+		var lhs []string
+		for _, v := range in.Lhs {
+			lhs = append(lhs, v.Name())
+		}
+		fn := fmt.Sprintf("verifInitVar%d", k)
+		fmt.Fprintf(&add[i], "\nfunc %s() { %s = %s }\n", fn, strings.Join(lhs, ", "), text(in.Rhs))
+		calls = append(calls, fn)
+	}
+	// init functions: renamed, called from a new init and from the reset
+	type edit struct {
+		off int
+		new string
+	}
+	edits := make([][]edit, len(files))
+	nInit := 0
+	for i, f := range files {
+		for _, d := range f.Decls {
+			fd, ok := d.(*ast.FuncDecl)
+			if !ok || fd.Recv != nil || fd.Name.Name != "init" {
+				continue
+			}
+			fn := fmt.Sprintf("verifInitFunc%d", nInit)
+			nInit++
+			edits[i] = append(edits[i], edit{fset.Position(fd.Name.Pos()).Offset, fn})
+			fmt.Fprintf(&add[i], "\nfunc init() { %s() }\n", fn)
+			calls = append(calls, fn)
+		}
+	}
+	if len(zero) == 0 && len(calls) == 0 {
+		return nil, nil
+	}
+	var m strings.Builder
+	m.WriteString("\nfunc verifZero[T any](T) (z T) { return }\n\nfunc verifResetGlobals() {\n")
+	for _, z := range zero {
+		fmt.Fprintf(&m, "\t%s = verifZero(%s)\n", z, z)
+	}
+	for _, c := range calls {
+		fmt.Fprintf(&m, "\t%s()\n", c)
+	}
+	m.WriteString("}\n")
+	add[0].WriteString(m.String())
+	out := make([][]byte, len(files))
+	for i := range files {
+		b := src[i]
+		// apply the renames back to front
+		for k := len(edits[i]) - 1; k >= 0; k-- {
+			e := edits[i][k]
+			b = append(append(append([]byte{}, b[:e.off]...), e.new...), b[e.off+len("init"):]...)
+		}
+		out[i] = append(b, add[i].String()...)
+	}
+	return out, nil
 }
 
 // ---------------------------------------------------------------- helpers to build nodes
@@ -394,6 +527,11 @@ func baseOfIndex(e ast.Expr) ast.Expr {
 	}
 }
 
+// generated reports whether fd was added by resetGlobals.
+func generated(fd *ast.FuncDecl) bool {
+	return fd.Recv == nil && (strings.HasPrefix(fd.Name.Name, "verifInitVar") || fd.Name.Name == "verifResetGlobals" || fd.Name.Name == "verifZero")
+}
+
 func (rw *rewriter) findMutatedVars(files []*ast.File) {
 	rw.mutatedVar = map[types.Object]bool{}
 	mark := func(e ast.Expr) {
@@ -404,6 +542,10 @@ func (rw *rewriter) findMutatedVars(files []*ast.File) {
 	for _, f := range files {
 		ast.Inspect(f, func(n ast.Node) bool {
 			switch x := n.(type) {
+			case *ast.FuncDecl:
+				if generated(x) {
+					return false // the reset code is not part of the program under test
+				}
 			case *ast.AssignStmt:
 				for _, l := range x.Lhs {
 					mark(l)
@@ -507,6 +649,14 @@ func (rw *rewriter) file(f *ast.File) ([]byte, error) {
 	})
 	if failure != nil {
 		return nil, failure
+	}
+	// the file holding the generated reset function registers it with the scheduler
+	for _, d := range f.Decls {
+		if fd, ok := d.(*ast.FuncDecl); ok && fd.Recv == nil && fd.Name.Name == "verifResetGlobals" {
+			f.Decls = append(f.Decls, &ast.FuncDecl{Name: id("init"), Type: &ast.FuncType{Params: &ast.FieldList{}},
+				Body: &ast.BlockStmt{List: []ast.Stmt{&ast.ExprStmt{X: call(rw.shim("vsched", "RegisterReset"), id("verifResetGlobals"))}}}})
+			break
+		}
 	}
 	rw.fixImports(f)
 
@@ -706,6 +856,8 @@ func (rw *rewriter) markNoMonitor(e ast.Expr) {
 
 func (rw *rewriter) pre(c *astutil.Cursor) {
 	switch n := c.Node().(type) {
+	case *ast.FuncDecl:
+		rw.inGenerated = generated(n)
 	case *ast.SelectorExpr:
 		rw.origX[n] = n.X
 	case *ast.LabeledStmt:
@@ -811,6 +963,9 @@ var ioNames = map[string]bool{"Copy": true, "CopyN": true, "CopyBuffer": true, "
 
 func (rw *rewriter) post(c *astutil.Cursor) error {
 	switch n := c.Node().(type) {
+	case *ast.FuncDecl:
+		rw.inGenerated = false
+		return nil
 	case *ast.SelectorExpr:
 		switch rw.pkgOf(n.X) {
 		case "sync":
@@ -1110,7 +1265,7 @@ func (rw *rewriter) addressable(e ast.Expr) bool {
 
 func (rw *rewriter) monitorField(n *ast.SelectorExpr) ast.Expr {
 	sl := rw.info.Selections[n]
-	if sl == nil || sl.Kind() != types.FieldVal || rw.noMonitor[n] {
+	if sl == nil || sl.Kind() != types.FieldVal || rw.noMonitor[n] || rw.inGenerated {
 		return nil
 	}
 	fld, ok := sl.Obj().(*types.Var)
@@ -1156,7 +1311,7 @@ func (rw *rewriter) monitorField(n *ast.SelectorExpr) ast.Expr {
 
 func (rw *rewriter) monitorVar(n *ast.Ident, c *astutil.Cursor) ast.Expr {
 	v, ok := rw.info.Uses[n].(*types.Var)
-	if !ok || v.IsField() || v.Parent() != rw.pkg.Scope() || !rw.mutatedVar[v] || rw.noMonitor[n] {
+	if !ok || v.IsField() || v.Parent() != rw.pkg.Scope() || !rw.mutatedVar[v] || rw.noMonitor[n] || rw.inGenerated {
 		return nil
 	}
 	if isShimPrimitive(v.Type()) {
